@@ -425,6 +425,33 @@ def flowRun (giveBack : Bool) (s : Flow) : List Exch → Flow
   | [] => s
   | e :: es => flowRun giveBack (flowStep giveBack s e) es
 
+/-! ## (g) the socket of an exchange -/
+
+/-- `lc.ListenPacket(ctx, "udp", netip.AddrPortFrom(laddr, 0).String())`: the port the clients ask
+    the kernel for when they open the socket of an exchange — the literal 0 ("any free port"),
+    whatever port the configured local address carries. `bindConfigured = true` is the variant that
+    passes the configured address with its port. -/
+def requestedPort (bindConfigured : Bool) (cfgPort : Nat) : Nat := if bindConfigured then cfgPort else 0
+
+/-- the port the socket is bound to: the requested one, or the kernel's choice when 0 was requested -/
+def boundPort (requested kernelChoice : Nat) : Nat := if requested = 0 then kernelChoice else requested
+
+/-- local port of the socket of exchange `j`; `kernel j` = the port the kernel would pick for it -/
+def socketPort (bindConfigured : Bool) (cfgPort : Nat) (kernel : Nat → Nat) (j : Nat) : Nat :=
+  boundPort (requestedPort bindConfigured cfgPort) (kernel j)
+
+/-- a datagram on its way to the client host: destination port, and (ghost) the exchange whose
+    request it was sent in answer to -/
+structure Wire (D : Type) where
+  d : D
+  dstPort : Nat
+  answers : Nat
+
+/-- what the socket bound to `port` delivers of the datagrams that arrive while it is open: those
+    addressed to its port, in order (receive time and deadline verdict as the loop sees them) -/
+def socketDelivers {D : Type} (port : Nat) (arriving : List (Wire D × Int × Bool)) : List (Event D) :=
+  (arriving.filter fun w => w.1.dstPort == port).map fun w => Event.dgram w.1.d w.2.1 w.2.2
+
 /-! ## (f) destination of the NTS-protected request along a history of key exchanges on one client -/
 
 /-- key exchange data as far as the destination goes: the server name as the exchange gave it, what
